@@ -196,6 +196,62 @@ theorem violations_nil (h : Inv s) (final : Bool) (hf : final = true → blocked
       | gone r => simp [Phase.exit?]
   simp only [Obs.violations, obsOf, v1, v2, v3, v4, v5, v6, v7, v8, if_true, List.append_nil, BEq.rfl]
 
+/-- … and so is its epoch-free part (what free-running runs are judged by). -/
+theorem freeViolations_nil (h : Inv s) (final : Bool) (hf : final = true → blocked s = true) :
+    (obsOf s final).freeViolations = [] := by
+  have v1 : s.calls.countP Call.stopAcc ≤ 1 := by have := h.stop_one; omega
+  have v2 : s.calls.countP Call.killAcc ≤ 1 := by have := h.kill_one; omega
+  have v3 : (match s.phase.exit? with
+      | none => ([] : List String)
+      | some .killed => if s.calls.any Call.killAcc then [] else ["exit-reason-not-an-accepted-request"]
+      | some (.stop x) =>
+        if s.calls.any (fun c => c.stopAcc && c.reason == x) then []
+        else if s.calls.any (fun c => !c.kill && !c.accepted && c.reason == x) then ["refused-stop-reason-won"]
+        else ["exit-reason-not-an-accepted-request"]
+      | some .drained => if s.marker then [] else ["exit-reason-not-an-accepted-request"]) = [] := by
+    cases he : s.phase.exit? with
+    | none => rfl
+    | some r =>
+      have hch := Phase.exit_chosen _ _ he
+      cases r with
+      | killed =>
+        have := h.exit_killed hch
+        have e : s.calls.any Call.killAcc = true := by
+          obtain ⟨c, hc, hp⟩ := List.any_eq_true.mp this
+          exact List.any_eq_true.mpr ⟨c, hc, by simp_all⟩
+        simp only [e, if_true]
+      | stop x =>
+        have := h.exit_stop x hch
+        have e : s.calls.any (fun c => c.stopAcc && c.reason == x) = true := by
+          obtain ⟨c, hc, hp⟩ := List.any_eq_true.mp this
+          exact List.any_eq_true.mpr ⟨c, hc, by simp_all⟩
+        simp only [e, if_true]
+      | drained =>
+        have := (h.exit_drained hch).1
+        simp only [this, if_true]
+  have v4 : (!final || s.phase.exit?.isSome || s.calls.all (fun c => !c.accepted)) = true := by
+    cases final with
+    | false => rfl
+    | true =>
+      have hb := hf rfl
+      cases hp : s.phase with
+      | listening =>
+        simp only [blocked, hp] at hb
+        have h1 := h.stop_pending (by simp [hp, Phase.epoch])
+        have h2 := h.kill_pending (by simp [hp, Phase.epoch])
+        have : s.calls.all (fun c => !c.accepted) = true := by
+          simp only [List.all_eq_true]; intro c hc
+          have a1 := h1 (by simp_all) c hc
+          have a2 := h2 (by simp_all) c hc
+          cases hk : c.kill <;> simp_all [Call.stopAcc, Call.killAcc]
+        simp only [this, Bool.or_true]
+      | handling => simp [blocked, hp] at hb
+      | postStop r => simp [blocked, hp] at hb
+      | decided r => simp [Phase.exit?]
+      | gone r => simp [Phase.exit?]
+  simp only [Obs.freeViolations, obsOf, v1, v2, v4, if_true, List.nil_append, List.append_nil]
+  exact v3
+
 end
 
 end StopPorts
